@@ -333,8 +333,8 @@ impl Message {
             return Err(CreationError::PayloadTooBig);
         }
         let rest = data.len().saturating_sub(InitHeader::MAX_PAYLOAD_SIZE);
-        // +1 in case of the being a last packet that is not full
-        if rest > 0 && rest / ContHeader::MAX_PAYLOAD_SIZE + 1 > 128 {
+        // rounded up: a last packet that is not full is a packet too
+        if rest.div_ceil(ContHeader::MAX_PAYLOAD_SIZE) > 128 {
             return Err(CreationError::PayloadTooBig);
         }
         Ok(Self {
